@@ -50,6 +50,13 @@ def symptom(r):
 
 
 def run(ctx):
+    # short TLC runs on a shared machine: no C2 compiler threads (quick tier), few GC threads
+    os.environ["JAVA_TOOL_OPTIONS"] = (os.environ.get("JAVA_TOOL_OPTIONS", "") + (" -XX:TieredStopAtLevel=1" if not ctx.thorough() else "")
+                                       + " -XX:ParallelGCThreads=2").strip()
+    # the design runs do not depend on anything: start them first, they finish while the driver is built and run
+    designs = ["ok_small"] + (["ok_2l", "ok"] if ctx.thorough() else []) + sorted(TWINS)
+    dex = cf.ThreadPoolExecutor(max_workers=6)
+    futs = [dex.submit(design_one, ctx, v) for v in designs]
     with cf.ThreadPoolExecutor(max_workers=2) as ex:
         # compile the driver while TLC enumerates the scenarios
         warm = ex.submit(ctx.go_test, "internal/repository", "^TestVerif_C38Build$", timeout=1500,
@@ -68,17 +75,15 @@ def run(ctx):
         pick_s = scripts
         pick_c = short + rnd.sample(longer, min(len(longer), 30000))
     else:
-        # quick: the whole space of the quick bound (scripts of <= 4 steps, schedules of <= 4 steps)
-        pick_s = scripts
-        pick_c = concs
+        # quick: the whole space of the quick bound (scripts of <= 4 steps, schedules of <= 4 steps) except
+        # scenarios in which the cache cannot matter: 4-step scripts on data packs (never cached, damage steps find
+        # nothing) and schedules over a good cached copy that nobody touches (every load is served from the cache)
+        pick_s = [x for x in scripts if not ('"ftype":"datapack"' in x and len(json.loads(x)["script"]) > 3)]
+        pick_c = [x for x in concs if not ('"init":"good"' in x and not any(e in x for e in ('"xrm"', '"xclear"', '"xflip"')))]
     vec = os.path.join(ctx.work, "vec.ndjson")
     open(vec, "w").write("\n".join(pick_s + pick_c) + "\n")
 
-    designs = ["ok_small"] + (["ok_2l", "ok"] if ctx.thorough() else []) + sorted(TWINS)
-    with cf.ThreadPoolExecutor(max_workers=6) as ex:
-        futs = [ex.submit(design_one, ctx, v) for v in designs]
-        out = ctx.go_test("internal/repository", "^TestVerif_C38$", timeout=3000, env={"VERIF_VECTORS": vec})
-        des = [f.result() for f in futs]
+    out = ctx.go_test("internal/repository", "^TestVerif_C38$", timeout=3000, env={"VERIF_VECTORS": vec})
 
     n, bad, lines = ctx.check_records("Cache", os.path.join(out, "recs.ndjson"), shard=7000 if not ctx.thorough() else 12000)
     for i in bad[:200]:
@@ -91,13 +96,17 @@ def run(ctx):
                 r["schedule"], r["ftype"], r["init"], [(l["actor"], l["out"]) for l in r["loaders"]], r["final"])
         ctx.violate("cache/%s/%s/%s/%s" % (r["kind"], r["ftype"], r["op"], symptom(r)),
                     "Cache!RecOK false: " + what, r)
+    des = [f.result() for f in futs]
+    dex.shutdown()
     res = ctx.go_results[-1]
     cov = {"evaluations": n, "distinct_nontrivial": res["distinct_nontrivial"], "rule": res["rule"],
            "samples": (res.get("samples") or [])[:4], "records_checked_by_tlc": n, "records_rejected": len(bad),
            "scenario_space": {"scripts": len(scripts), "concurrent_schedules": len(concs)},
            "replayed": {"scripts": len(pick_s), "concurrent_schedules": len(pick_c)},
            "counters": res.get("counters", {}), "design_runs": des,
-           "exhaustive": {"scripts": True, "concurrent_schedules": len(pick_c) == len(concs)},
+           "exhaustive": {"scripts": len(pick_s) == len(scripts), "concurrent_schedules": len(pick_c) == len(concs)},
+           "left_out_as_vacuous": {"scripts_4_steps_on_never_cached_data_packs": len(scripts) - len(pick_s),
+                                   "schedules_over_untouched_good_copy": len(concs) - len(pick_c)} if not ctx.thorough() else {},
            "bounds": {"script_steps": 5 if ctx.thorough() else 4, "schedule_steps": 5 if ctx.thorough() else 4}}
     return verif.finish(ctx, "fault_enumeration", cov, [
         "Cache.tla is the oracle: verified loads return the repository's bytes or fail; the first damaged copy a process meets is replaced by a good one; listing drops stale copies; restic itself never leaves a bad file under the final name; unverified backend-level reads are judged only while nobody corrupted the cache",
